@@ -419,4 +419,40 @@ example :
     (runOps {} demoSL).threads.map (·.1) = [100, 101] := by
   decide +kernel
 
+/-- the general form applies there: the loaded state is the saved one with the link of thread 100 dropped — and that
+    is a different state -/
+example :
+    load (killAllInsts (runOps {} demoSL)) (save (runOps {} demoSL)) = archivable (runOps {} demoSL) ∧
+    (archivable (runOps {} demoSL)).threads.map (fun e => e.2.call) = [none, none] ∧
+    (archivable (runOps {} demoSL)).timer.elems = [(100, 5)] ∧ (archivable (runOps {} demoSL)).calls = [(1, .pending)] :=
+  ⟨(C09_save_reset_load_general (Reachable.toSL ((reachable_iff _).2 ⟨demoSL, by decide, rfl⟩))
+      (by decide +kernel) (by decide +kernel)).1, by decide +kernel⟩
+
+/-- the run-on state of the demo (clock 5: the linked thread has ended, the thread waiting on `level` is left, a
+    snapshot is held) satisfies **every** hypothesis of `C09_save_reset_load_roundtrip`; saving it, resetting and
+    loading gives it back -/
+example :
+    load (killAllInsts (runOps (runOps {} demoSL) [.step 5, .takeOut])) (save (runOps (runOps {} demoSL) [.step 5, .takeOut]))
+      = runOps (runOps {} demoSL) [.step 5, .takeOut] ∧
+    (runOps (runOps {} demoSL) [.step 5, .takeOut]).threads.map (·.1) = [101] ∧
+    (runOps (runOps {} demoSL) [.step 5, .takeOut]).notify = [((50, 7), [101])] :=
+  ⟨(C09_save_reset_load_roundtrip demoSL_reachable (by decide +kernel) (by decide +kernel) (by decide +kernel)
+      (by decide +kernel)).1, by decide +kernel⟩
+
+/-- the same program started without a host `Event` (`callv`): at the save point a timed thread with its timer element
+    and a thread waiting on `level`, no link; all hypotheses hold, all three compositions behave as stated -/
+def demoSLv : List HostOp :=
+  [.script [[.thread 1, .wait 5, .mark 1], [.waittill 50 [7], .mark 2]] [0, 0], .callv 0, .takeOut]
+
+example :
+    load (killAllInsts (runOps {} demoSLv)) (save (runOps {} demoSLv)) = runOps {} demoSLv ∧
+    load (killAllInsts (hostScript (hostReset (runOps {} demoSLv)) (runOps {} demoSLv).prog (runOps {} demoSLv).progParams))
+      (save (runOps {} demoSLv)) = runOps {} demoSLv ∧
+    (runOps {} demoSLv).threads.map (·.1) = [100, 101] ∧ (runOps {} demoSLv).timer.elems = [(100, 5)] ∧
+    (runOps {} demoSLv).notify = [((50, 7), [101])] ∧ (runOps {} demoSLv).prog.length = 2 ∧
+    (hostReset (runOps {} demoSLv)).threads = [] ∧ (hostReset (runOps {} demoSLv)).prog = [] :=
+  have h := C09_save_reset_load_roundtrip (Reachable.toSL ((reachable_iff _).2 ⟨demoSLv, by decide, rfl⟩))
+    (by decide +kernel) (by decide +kernel) (by decide +kernel) (by decide +kernel)
+  ⟨h.1, h.2.1, by decide +kernel⟩
+
 end Morfuse.Sched
